@@ -14,6 +14,8 @@ type State struct {
 	vals  map[ssa.Value]Value
 	heap  map[string]*Term
 	ghost map[string]Value
+	// calls deferred so far on this path, per function activation
+	defers map[*ssa.Function][]deferRec
 	// write log (for loop frame discovery)
 	wcells map[*ssa.Alloc]bool
 	wheap  map[string]bool
@@ -28,6 +30,12 @@ func (s *State) Clone() *State {
 	n := &State{cells: make(map[*ssa.Alloc]Value, len(s.cells)), vals: make(map[ssa.Value]Value, len(s.vals)),
 		heap: make(map[string]*Term, len(s.heap)), ghost: make(map[string]Value, len(s.ghost)),
 		wcells: make(map[*ssa.Alloc]bool, len(s.wcells)), wheap: make(map[string]bool, len(s.wheap))}
+	if len(s.defers) > 0 {
+		n.defers = make(map[*ssa.Function][]deferRec, len(s.defers))
+		for k, v := range s.defers {
+			n.defers[k] = append([]deferRec{}, v...)
+		}
+	}
 	for k, v := range s.cells {
 		n.cells[k] = v
 	}
@@ -88,6 +96,28 @@ func (fx *FuncExec) mergeStates(conds []*Term, sts []*State) *State {
 		return sts[0].Clone()
 	}
 	out := NewState()
+	// deferred calls: the paths being merged must agree (defer statements under a condition are not supported)
+	for i, s := range sts {
+		if i == 0 {
+			if len(s.defers) > 0 {
+				out.defers = map[*ssa.Function][]deferRec{}
+				for k, v := range s.defers {
+					out.defers[k] = append([]deferRec{}, v...)
+				}
+			}
+			continue
+		}
+		for k, v := range s.defers {
+			if len(out.defers[k]) != len(v) {
+				fx.unsupported("paths with different sets of deferred calls are merged in " + shortFuncName(k))
+			}
+		}
+		for k, v := range out.defers {
+			if len(s.defers[k]) != len(v) {
+				fx.unsupported("paths with different sets of deferred calls are merged in " + shortFuncName(k))
+			}
+		}
+	}
 	// cells
 	ckeys := map[*ssa.Alloc]bool{}
 	for _, s := range sts {
@@ -101,7 +131,7 @@ func (fx *FuncExec) mergeStates(conds []*Term, sts []*State) *State {
 			out.wheap[k] = true
 		}
 	}
-	for k := range ckeys {
+	for _, k := range sortedAllocs(ckeys) {
 		var cs []*Term
 		var vs []Value
 		for i, s := range sts {
@@ -118,7 +148,7 @@ func (fx *FuncExec) mergeStates(conds []*Term, sts []*State) *State {
 			vkeys[k] = true
 		}
 	}
-	for k := range vkeys {
+	for _, k := range sortedValues(vkeys) {
 		var cs []*Term
 		var vs []Value
 		for i, s := range sts {
@@ -161,7 +191,7 @@ func (fx *FuncExec) mergeStates(conds []*Term, sts []*State) *State {
 			gkeys[k] = true
 		}
 	}
-	for k := range gkeys {
+	for _, k := range sortedStrings(gkeys) {
 		var cs []*Term
 		var vs []Value
 		for i, s := range sts {
@@ -230,7 +260,7 @@ func (fx *FuncExec) iteValue(c *Term, a, b Value, typ types.Type) Value {
 		}
 	case VElem:
 		if bv, ok := b.(VElem); ok && av.heap == bv.heap {
-			return VElem{av.heap, ts.Ite(c, av.arr, bv.arr), ts.Ite(c, av.idx, bv.idx), av.typ}
+			return VElem{heap: av.heap, arr: ts.Ite(c, av.arr, bv.arr), idx: ts.Ite(c, av.idx, bv.idx), typ: av.typ}
 		}
 	case VIface:
 		if bv, ok := b.(VIface); ok {
@@ -282,4 +312,41 @@ func (fx *FuncExec) iteValue(c *Term, a, b Value, typ types.Type) Value {
 	}
 	fx.unsupported(fmt.Sprintf("merge of values of different shapes (%T / %T)", a, b))
 	return a
+}
+
+// Deterministic iteration orders: the order in which merged values are built decides term ids and the
+// order of generated facts, and solvers are sensitive to both.
+func valueOrderKey(v ssa.Value) string {
+	p := ""
+	if f := v.Parent(); f != nil {
+		p = f.String()
+	}
+	return fmt.Sprintf("%s|%012d|%s", p, int(v.Pos()), v.Name())
+}
+
+func sortedAllocs(m map[*ssa.Alloc]bool) []*ssa.Alloc {
+	out := make([]*ssa.Alloc, 0, len(m))
+	for k := range m {
+		out = append(out, k)
+	}
+	sort.Slice(out, func(i, j int) bool { return valueOrderKey(out[i]) < valueOrderKey(out[j]) })
+	return out
+}
+
+func sortedValues(m map[ssa.Value]bool) []ssa.Value {
+	out := make([]ssa.Value, 0, len(m))
+	for k := range m {
+		out = append(out, k)
+	}
+	sort.Slice(out, func(i, j int) bool { return valueOrderKey(out[i]) < valueOrderKey(out[j]) })
+	return out
+}
+
+func sortedStrings(m map[string]bool) []string {
+	out := make([]string, 0, len(m))
+	for k := range m {
+		out = append(out, k)
+	}
+	sort.Strings(out)
+	return out
 }
